@@ -70,6 +70,18 @@ pub fn all() -> Vec<Prop> {
 /// crash points, ...).  Each property module that needs one adds an arm here.
 pub fn helper_main(args: &[String]) -> i32 {
     match args.first().map(|s| s.as_str()) {
+        // C14/C15: vectors of the reference hash iterations, compared with Python hashlib
+        // by pytools/offcrypto_selftest.py
+        Some("offcrypto-vectors") => {
+            if let Err(e) = crate::model::offcrypto::internal_selftest() {
+                eprintln!("offcrypto self-test failed: {}", e);
+                return 2;
+            }
+            for v in crate::model::offcrypto::selftest_vectors() {
+                println!("{}", v);
+            }
+            0
+        }
         _ => {
             eprintln!("unknown helper {:?}", args);
             2
